@@ -20,22 +20,24 @@ type MuxSample struct {
 	Dur  uint32
 	Cto  int32
 	Sync bool
+	Sdtp byte // sdtp entry, used when the track has an sdtp box and SdtpSeeded is set
 }
 
 // MuxTrack describes one synthesised track.
 type MuxTrack struct {
-	ID        uint32
-	Handler   string // "vide" | "soun"
-	Timescale uint32
-	Stsd      []byte
-	Samples   []MuxSample
-	Chunks    []int // samples per chunk, in order; sums to len(Samples)
-	Co64      bool
-	CttsVer   int // -1: no ctts box, 0 or 1
-	Stss      bool
-	Sdtp      bool
-	Edts      bool
-	Uniform   bool // all samples have one size and stsz uses the uniform form (sample_size != 0, no table)
+	ID         uint32
+	Handler    string // "vide" | "soun"
+	Timescale  uint32
+	Stsd       []byte
+	Samples    []MuxSample
+	Chunks     []int // samples per chunk, in order; sums to len(Samples)
+	Co64       bool
+	CttsVer    int // -1: no ctts box, 0 or 1
+	Stss       bool
+	Sdtp       bool
+	SdtpSeeded bool // sdtp entries are per-sample seeded bytes instead of 0x20 (sync) / 0x10
+	Edts       bool
+	Uniform    bool // all samples have one size and stsz uses the uniform form (sample_size != 0, no table)
 }
 
 // MuxSpec is a whole file.
@@ -191,9 +193,12 @@ func Mux(s *MuxSpec) ([]byte, error) {
 			if tr.Sdtp {
 				p := make([]byte, len(tr.Samples))
 				for i, sm := range tr.Samples {
-					if sm.Sync {
+					switch {
+					case tr.SdtpSeeded:
+						p[i] = sm.Sdtp
+					case sm.Sync:
 						p[i] = 0x20
-					} else {
+					default:
 						p[i] = 0x10
 					}
 				}
@@ -332,6 +337,7 @@ func DrawMuxSpecOpt(t *sim.Tape, av bool) (*MuxSpec, error) {
 			tr.Timescale = []uint32{90000, 12800, 25, 30000}[t.Draw(4)]
 			tr.Stss = av || !t.Chance(200)
 			tr.Sdtp = t.Chance(300)
+			tr.SdtpSeeded = tr.Sdtp && t.Bool()
 			if t.Chance(600) {
 				tr.CttsVer = t.Draw(2)
 			}
@@ -348,6 +354,8 @@ func DrawMuxSpecOpt(t *sim.Tape, av bool) (*MuxSpec, error) {
 		}
 		n := 1 + t.Draw(40)
 		gop := 1 + t.Draw(8)
+		irregular := video && tr.Stss && t.Chance(250) // sync samples at seeded, unevenly spaced positions
+		zeroSizes := !tr.Uniform && t.Chance(120)      // some samples are empty (legal: size 0)
 		baseDur := []uint32{1, 512, 1001, 1024, 3000, 3600}[t.Draw(6)]
 		if t.Chance(60) {
 			// very long samples in a fine timescale: stts runs that last more than 2^32 ticks (legal; needs version-1 headers)
@@ -361,6 +369,9 @@ func DrawMuxSpecOpt(t *sim.Tape, av bool) (*MuxSpec, error) {
 			}
 			if video {
 				sm.Sync = !tr.Stss || k%gop == 0
+				if irregular {
+					sm.Sync = k == 0 || t.Chance(250)
+				}
 				if tr.CttsVer >= 0 {
 					sm.Cto = int32(t.Draw(4)) * int32(baseDur)
 					if tr.CttsVer == 1 && t.Chance(200) {
@@ -372,7 +383,13 @@ func DrawMuxSpecOpt(t *sim.Tape, av bool) (*MuxSpec, error) {
 			if tr.Uniform {
 				sm.Data = make([]byte, uniSize)
 			}
+			if zeroSizes && t.Chance(250) {
+				sm.Data = sm.Data[:0]
+			}
 			rnd.Fill(sm.Data)
+			if tr.SdtpSeeded {
+				sm.Sdtp = byte(rnd.U64())
+			}
 			tr.Samples = append(tr.Samples, sm)
 		}
 		// chunking
